@@ -841,6 +841,66 @@ def tag_registry(P, rep, rule="TAG.unique"):
     rep.floor(rule, n, 6, "features interning their tag")
 
 
+def smooth_blend(P, rep, rule="EXPR.smooth"):
+    """smooth composition: a blend between the two documented end fractions"""
+    import sympy as sp
+    rep.rule(rule, "every smooth composition model returns, for a listed composition, w*A + (1-w)*B with w = (1 - tanh(...))/2, where A is the "
+                   "fraction parsed from the \"center fractions\"/\"top fractions\" key and B the one from \"side fractions\"/\"bottom fractions\": "
+                   "the value tends to A where tanh -> -1 (centre/top) and to B where tanh -> +1 (sides/bottom)")
+    n = 0
+    for F in sorted(P.funcs.values(), key=lambda f: f.key):
+        if F.body is None or not F.qn.endswith("Composition::Smooth::get_composition"):
+            continue
+        cls = F.qn.rsplit("::", 1)[0]
+        PE = P.func(cls + "::parse_entries")
+        role = {}
+        for x in PE.walk():
+            if x.get("k") in ("BinaryOperator", "CXXOperatorCallExpr") and x.get("op") == "=":
+                t = sc(x["c"][0])
+                if t.get("k") == "MemberExpr" and astq.is_this_field(P, t):
+                    lits = [y.get("v") for y in PE.walk(x["c"][1]) if y.get("k") == "StringLiteral"]
+                    for l in lits:
+                        if l in ("center fractions", "top fractions"):
+                            role[t["r"]] = "A"
+                        if l in ("side fractions", "bottom fractions"):
+                            role[t["r"]] = "B"
+        if sorted(role.values()) != ["A", "B"]:
+            rep.unknown(rule, "%s: end fractions not identified in parse_entries (%s)" % (cls, sorted(role.values())))
+            continue
+        A, B, TH = sp.symbols("A B TH", real=True)
+
+        def hook(nd):
+            sub = astq.subscript(nd)
+            if sub is not None:
+                b = sc(sub[0])
+                if b.get("k") == "MemberExpr" and b.get("r") in role:
+                    return {"A": A, "B": B}[role[b["r"]]]
+            if nd.get("k") == "CallExpr" and P.d(nd.get("callee")).get("qn") in ("tanh", "std::tanh"):
+                return TH
+            return None
+        comp_k = None
+        for x in F.walk():
+            if x.get("k") == "VarDecl" and x.get("n") == "composition":
+                comp_k = x["r"]
+        asg = [x for x in F.walk() if x.get("k") == "BinaryOperator" and x.get("op") == "=" and comp_k is not None and astq.is_ref_to(x["c"][0], comp_k)]
+        if len(asg) != 1:
+            rep.unknown(rule, "%s: %d assignments to the local `composition`" % (F.qn, len(asg)))
+            continue
+        n += 1
+        sym = norm.Sym(P, F, inline_locals=True, hook=hook)
+        e = sp.expand(sym(asg[0]["c"][1]))
+        ok = e.free_symbols <= {A, B, TH} and sp.Poly(e, TH).degree() <= 1
+        centre = sp.simplify(e.subs(TH, -1)) if ok else None
+        side = sp.simplify(e.subs(TH, 1)) if ok else None
+        if ok and centre == A and side == B:
+            rep.ok(rule, "%s: composition = w*A + (1-w)*B" % cls.split("Features::")[-1], F.nloc(asg[0]), F.qn)
+        else:
+            rep.violation(rule, "%s: composition = %s (tanh=-1: %s, tanh=+1: %s)" % (cls.split("Features::")[-1], str(e)[:80], centre, side), F.nloc(asg[0]), F.qn,
+                          norm.render(P, asg[0])[:160], "the documented end fractions are not reached", key="%s|%s" % (rule, cls),
+                          witness="center/top fraction 1 with side/bottom fraction 0.5: query at the centre and at the side")
+    rep.floor(rule, n, 2, "smooth composition models")
+
+
 # ------------------------------------------------------------------------------------------------
 def cooling_formulas(P, rep, rule="EXPR.cooling"):
     """closed forms of the cooling models and the Gaussian plume, from the published model descriptions"""
